@@ -250,7 +250,12 @@ def layered(st, rng, frames, probe_plain_at, spec):
     peer = Peer(st.keys[1], 8)
     body_len = probe_plain_at
     sends = set()
-    if spec.get("sends") == "per-frame":
+    if "send_at" in spec:
+        # sweep: the device flushes after `send_at` plaintext bytes, so the upper framer sees
+        # exactly that prefix when the read ends on the block boundary
+        if 0 < spec["send_at"] < body_len:
+            sends.add(spec["send_at"])
+    elif spec.get("sends") == "per-frame":
         acc = 0
         for f in frames[:-1]:
             acc += len(f)
@@ -705,6 +710,8 @@ def near(st, n, radius):
 
 def make_plan(ctx, n, weight):
     """Which segmentations to try for a stream whose pre-probe part has `n` bytes."""
+    if weight == "blocks":     # layered sweep: reads that end on HAP block boundaries
+        return dict(single=0, double=0, bytewise=ctx.scale(0, 600), random=2, extra=0, pairs=3, blocks=True)
     if weight == "light":      # very long streams: structural positions only
         return dict(single=0, double=0, bytewise=0, random=ctx.scale(6, 40), extra=ctx.scale(6, 40), pairs=ctx.scale(10, 80))
     return dict(single=ctx.scale(1200, 4096), double=ctx.scale(40, 110), bytewise=4096, random=ctx.scale(20, 150),
@@ -714,8 +721,20 @@ def make_plan(ctx, n, weight):
 def cut_sets(ctx, st, rng, plan):
     """Yield (kind, cuts) over the part of the stream before the probe."""
     n = st.probe_at
-    yield "unsplit", []
+    yield "whole", None          # the entire stream, probe included, in ONE read: the reference
+    yield "unsplit", []          # stream | probe
     if n <= 1:
+        return
+    if plan.get("blocks"):
+        ends = sorted(b for b in st.frame_starts if 0 < b < n)
+        for b in ends:
+            yield "block-end", [b]
+        if len(ends) > 1:
+            yield "block-end", ends
+        for _ in range(plan["random"]):
+            yield "random", sorted(rng.sample(range(1, n), min(rng.randint(2, 6), n - 1)))
+        if n <= plan["bytewise"]:
+            yield "bytewise", list(range(1, n))
         return
     interesting = near(st, n, 3)
     if n <= plan["single"]:
@@ -761,7 +780,10 @@ def specs(ctx, rng):
     for _ in range(ctx.scale(2, 8)):
         add("mrp", enc=rng.chance(0.5),
             sizes=[rng.choice([0, 2, 4, 17, 30, 126, 127, 128, 129, 200, 300]) for _ in range(rng.randint(1, 5))] + [6])
+    add("mrp", enc=False, sizes=[2, 0, 0])            # the last frame (probe) is an empty message
     # Companion: 0/1, 0xFFFF/0x10000
+    add("companion", enc=False, sizes=[1, 0, 0])      # header-only probe
+    add("companion", enc=True, sizes=[1, 0])
     add("companion", enc=False, sizes=[0, 1, 5, 0, 3])
     add("companion", enc=False, sizes=[255, 256, 0, 1])
     add("companion", "light", enc=False, sizes=[0xFFFF, 0x10000, 0, 2])
@@ -782,6 +804,11 @@ def specs(ctx, rng):
     add("data", kinds=["one", "empty", "three", "one"])
     add("data", kinds=["one", "empty", "one"], zero_block=True)
     add("data", "light", kinds=["big", "one", "big", "empty"])
+    # sweep of the flush position under the upper framer: every plaintext prefix length
+    for k in range(1, ctx.scale(230, 400)):
+        add("data", "blocks", kinds=["empty", "one", "empty"], send_at=k)
+        for target in ("event", "http-hap", "server-hap"):
+            add("http", "blocks", target=target, kinds=["nobody", "small", "nobody"], send_at=k)
     # HTTP client / server (plain and above HAP), event channel (above HAP)
     for target in ("http", "server", "event", "http-hap", "server-hap"):
         plain = target in ("http", "server")
@@ -806,7 +833,7 @@ def prepare(ctx, seed, path, spec):
     lines = ["stream " + st.wire.hex()]
     if st.plains is not None:
         lines.append("plains " + " ".join(p.hex() or "-" for p in st.plains))
-    lines += [model_line(st, cuts + [n]) for _kind, cuts in cases]
+    lines += [model_line(st, [] if cuts is None else cuts + [n]) for _kind, cuts in cases]
     return st, cases, lines
 
 
@@ -820,7 +847,8 @@ def evaluate(ctx, path, spec, st, cases, answers):
     for (kind, cuts), ans in zip(cases, answers[head:]):
         case = {"target": st.target, "spec": _public(spec), "rng_path": list(path), "cuts": cuts,
                 "stream_len": len(st.wire), "probe_at": n}
-        trace, up = run_real(st, cuts + [n])
+        trace, up = run_real(st, [] if cuts is None else cuts + [n])
+        cuts = cuts or []
         where = [st.classify(c) for c in cuts]
         for w in set(where):
             ctx.note("cut-in:" + w)
@@ -840,14 +868,18 @@ def evaluate(ctx, path, spec, st, cases, answers):
         ctx.validated()
         # direct oracle on the real code
         final = trace[-1]
-        if kind == "unsplit" and base is None:
+        if kind == "whole":
             base = (up, final["rest"])
             expected = getattr(st, "deliveries", None)
             if expected is not None and up != expected:
-                ctx.disagree(case, _clip(up), _clip(expected), where="unsplit run vs what the generator encoded")
+                ctx.disagree(case, _clip(up), _clip(expected), where="whole-stream run vs what the generator encoded")
             if any(ob["exc"] for ob in trace):
-                ctx.fail(st.target + ":unsplit-exception", case, final["exc"], "no exception",
-                         "the unsplit valid stream raises out of the receive callback")
+                ctx.fail(st.target + ":whole-exception", case, final["exc"], "no exception",
+                         "the valid stream delivered in one read raises out of the receive callback")
+            elif len(up) != expected_up(st):
+                ctx.fail(st.target + ":whole-incomplete", case, _clip(up), "%d items" % expected_up(st),
+                         "a valid stream of %d frames delivered in one read hands %d items upward (expected %d)"
+                         % (len(st.descs), len(up), expected_up(st)))
             continue
         for ob in trace:
             if ob["exc"]:
@@ -863,6 +895,17 @@ def evaluate(ctx, path, spec, st, cases, answers):
             elif final["rest"] != base[1]:
                 ctx.fail(st.target + ":residual-differs", case, final["rest"], base[1],
                          "buffer left behind differs from the unsplit run")
+
+
+def expected_up(st):
+    """How many items a valid stream of len(st.descs) frames must hand upward."""
+    if st.target == "hap":
+        return 1                                   # the plaintext (compared as one byte string)
+    if st.target == "data":
+        return len(st.deliveries)                  # protobufs + replies
+    if st.target.startswith("server"):
+        return 2 * len(st.descs)                   # request handled + response written
+    return len(st.descs)
 
 
 def _public(spec):
@@ -901,7 +944,7 @@ def replay_d1(ctx):
     st = build(ctx.seed, path, spec)
     case = {"target": "mrp", "spec": _public(spec), "rng_path": list(path), "cuts": [1], "stream_len": len(st.wire),
             "probe_at": st.probe_at}
-    base, up0 = run_real(st, [st.probe_at])
+    base, up0 = run_real(st, [])
     trace, up = run_real(st, [1, st.probe_at])
     ctx.case(["mrp", "d1", [1]], True)
     ans = ctx.lean(["stream " + st.wire.hex(), "run mrp 1,%d" % st.probe_at, "run mrppinned 1,%d" % st.probe_at])
@@ -926,16 +969,17 @@ def replay(ctx, failure):
     spec = dict(case["spec"], plan=None)
     st = build(ctx.seed, tuple(case["rng_path"]), spec)
     n = st.probe_at
-    _t0, up0 = run_real(st, [n])
+    base, up0 = run_real(st, [])
+    if case["cuts"] is None:
+        return bool(any(ob["exc"] for ob in base) or len(up0) != expected_up(st))
     trace, up = run_real(st, list(case["cuts"]) + [n])
-    base, _ = run_real(st, [n])
     return bool(any(ob["exc"] for ob in trace) or up != up0 or trace[-1]["rest"] != base[-1]["rest"])
 
 
 def shrink(ctx, failure):
     """Fewest cuts that still fail on the real code."""
     case = failure["case"]
-    cuts = list(case["cuts"])
+    cuts = list(case["cuts"] or [])
     if len(cuts) <= 1:
         return failure
 
